@@ -49,6 +49,11 @@ CHECKS = {
          "Generated documents with up to 8 (thorough 30) pages/slides/chapters/messages incl. empty ones are rendered to 17 formats; each unit must carry its 1-based source position, hold exactly the tokens of its "
          "source unit (text, unit tables or heading path), and get_full_text() must equal the trimmed newline-join of the unit texts for the formats documented so. Every repository fixture is checked for numbering and the join clause.",
          "For heading-sectioned flow formats the number of units is not prescribed (only numbering, partition and order); heading text is not required to be covered when its section has no body; fixtures have no ground truth for count/partition.", "DESIGN.md §4 C03"),
+ "C13": ("exploration", "model-based Hypothesis generation of tables (documents) and typed grids (spreadsheets) rendered by independent writers; cell-by-cell oracle with known-finding attribution",
+         "Document tables (multi-paragraph/empty/nested cells, header rows, several tables) in docx, pptx, odt, odp, html, mhtml, epub, rtf must come back one grid per source table, in order, each cell holding exactly "
+         "its tokens; spreadsheet grids with typed values, empty cells, typed/empty headers, offsets, >100-cell gaps and header rows in xlsx (two independent writers), ods and xls must come back value-equal from A1 with "
+         "matching get_dim() and one unit per sheet. Header-row conventions of xlsx/xls are listed known findings and attributed by neutralisation.",
+         "Writers (own OOXML/ODF/BIFF8, openpyxl) are trusted; duration/error cell forms are not judged; ragged rows only where the format allows them.", "DESIGN.md §4 C13"),
 }
 NOT_YET = {}
 
